@@ -326,6 +326,7 @@ class World(object):
         self.in_ctx_exit = 0
         self.in_ctx_enter = 0
         self.probes = {}
+        self.auto = {}
         self.errs = []  # keep error instances alive
         self.extra_items = []
         self.shared_tasks = {}
@@ -443,6 +444,7 @@ class World(object):
         self.transitions += 1
         n = self.steps.get(tid, 0) + 1
         self.steps[tid] = n
+        self.auto[(tid, n)] = (self.sv[0]._value, self.sv[1]._value, self.target.attr)
         if self.baton is not None:
             self.baton.point(self.tidx)
             if _sched.get_scheduler() is not self.scheduler:
